@@ -1509,7 +1509,9 @@ func UniqueInputFieldNamesRule(context *ValidationContext) *ValidationRuleInstan
 						}
 
 					}
-					return visitor.ActionSkip, nil
+					// keep going: the field's value may be an input object
+					// with duplicates of its own
+					return visitor.ActionNoChange, nil
 				},
 			},
 		},
